@@ -24,16 +24,25 @@ def encodings():
 def make_case(rng, cid, enc, nsteps=1, tracemode=0, io=None):
     table, op, tmpl = enc
     st = rand_state(rng)
-    st["HALT"] = 0
+    # the halted indication of an earlier HALT / Run is not machine state: Step must behave the same with it set
+    st["HALT"] = 1 if rng.chance(1, 8) else 0
     mem = {}
-    # pointer registers sometimes aim at / around the instruction itself or each other
-    if rng.chance(1, 6):
+    # pointer registers sometimes aim at / around the instruction itself or each other (operand or stack overlapping the
+    # instruction bytes: what is read first, what is written first)
+    if rng.chance(1, 4):
         for k in ("SP", "IX", "IY"):
             if rng.chance(1, 2):
-                st[k] = (st["PC"] + rng.below(7) - 3) & 0xFFFF
+                st[k] = (st["PC"] + rng.below(9) - 3) & 0xFFFF
         if rng.chance(1, 2):
-            hl = (st["PC"] + rng.below(7) - 3) & 0xFFFF
+            hl = (st["PC"] + rng.below(9) - 3) & 0xFFFF
             st["H"], st["L"] = hl >> 8, hl & 0xFF
+        if rng.chance(1, 3):
+            de = (st["PC"] + rng.below(9) - 3) & 0xFFFF
+            st["D"], st["E"] = de >> 8, de & 0xFF
+    # counters of the block instructions and DJNZ at their corner values
+    if table == "ed" and 0xA0 <= op <= 0xBB and rng.chance(1, 2):
+        bc = rng.choice([0x0000, 0x0001, 0x0002, 0x0100, 0x0101, 0x00FF, 0xFF00, 0xFFFF])
+        st["B"], st["C"] = bc >> 8, bc & 0xFF
     fill = rng.choice([0, 0xFF, 0x76, rng.below(256)])
     pc = st["PC"]
     bs = [(b if b is not None else rng.choice([0, 1, 0x7F, 0x80, 0xFF, rng.below(256)])) for b in tmpl]
